@@ -120,7 +120,7 @@ func errsStr(st status.Status, path string) string {
 
 // protocol: parent writes "<checkOnly 0|1> <len>\n<bytes>", worker answers one line.
 func c22Worker(_ *rand.Rand, _ int, _ []string) {
-	debug.SetMaxStack(64 << 20) // runaway recursion is reported after 64 MB instead of 1 GB
+	debug.SetMaxStack(64 << 20)  // runaway recursion is reported after 64 MB instead of 1 GB
 	log.SetFlags(log.Lshortfile) // log.Fatal sites identify themselves as file:line, no timestamps
 	in := bufio.NewReaderSize(os.Stdin, 1<<20)
 	w := bufio.NewWriter(os.Stdout)
